@@ -482,6 +482,10 @@ Definition spec_101 (ch : N) (reg : bool) (num n : N) (vs : list Z) : list Z :=
 Definition model_110 (h : list pnop) : list Z := outs_or_panic (pn_run pn_new_scanner h) enc_pn.
 Definition spec_110 (h : list pnop) : list Z := flat_map enc_pn (pn_spec_outs h).
 
+(** timeouts: integers >= 2^61 stand for [Duration::MAX] (larger than any elapsed time) *)
+Definition dec_timeout (z : Z) : N :=
+  if Z.leb 2305843009213693952 z then 18446744073709551616000000000%N else nz z.
+
 (** * polling scanner: C13 / C14 *)
 Fixpoint dec_sops (l : list Z) : list sop :=
   match l with
@@ -1083,18 +1087,18 @@ Definition check (tag : Z) (inp obs : list Z) : verdict :=
   | 110, h => verdict_of obs (model_110 (dec_pnops h)) (spec_110 (dec_pnops h))
   | 120, timeout :: nprior :: rest =>
       let '(prior, sentence) := take_ops (Z.to_nat nprior) rest in
-      check_120 (nz timeout) (dec_sops prior) (dec_sops sentence) obs
-  | 130, timeout :: h => check_130 (nz timeout) (dec_sops h) obs
+      check_120 (dec_timeout timeout) (dec_sops prior) (dec_sops sentence) obs
+  | 130, timeout :: h => check_130 (dec_timeout timeout) (dec_sops h) obs
   | 131, timeout :: n :: rest =>
       let '(a, b) := take_ops (Z.to_nat n) rest in
-      check_131 (nz timeout) (dec_sops a) (dec_sops b) obs
-  | 132, timeout :: l => check_132 (nz timeout) l obs
-  | 140, timeout :: h => check_140 (nz timeout) (dec_sops h) obs
+      check_131 (dec_timeout timeout) (dec_sops a) (dec_sops b) obs
+  | 132, timeout :: l => check_132 (dec_timeout timeout) l obs
+  | 140, timeout :: h => check_140 (dec_timeout timeout) (dec_sops h) obs
   | 150, kind :: timeout :: nch :: c1 :: c2 :: c3 :: ops =>
-      check_150 kind (nz timeout) (firstn (Z.to_nat nch) [nz c1; nz c2; nz c3]) ops obs
+      check_150 kind (dec_timeout timeout) (firstn (Z.to_nat nch) [nz c1; nz c2; nz c3]) ops obs
   | 160, kind :: timeout :: nprior :: rest =>
       let '(prior, msg) := take_ops (Z.to_nat nprior) rest in
-      check_160 kind (nz timeout) prior msg obs
+      check_160 kind (dec_timeout timeout) prior msg obs
   | 161, [n] => check_161 (nz n) obs
   | 162, [idx] => check_162 (Z.to_nat idx) obs
   | 190, tidx :: j =>
@@ -1109,6 +1113,6 @@ Definition check (tag : Z) (inp obs : list Z) : verdict :=
       mkV (listZ_eqb obs model) (Z.eqb (last obs 0) 1) model
   | 170, kind :: timeout :: n1 :: rest =>
       let '(ops1, ops2) := take_ops (Z.to_nat n1) rest in
-      check_170 kind (nz timeout) ops1 ops2 obs
+      check_170 kind (dec_timeout timeout) ops1 ops2 obs
   | _, _ => bad_record
   end.
